@@ -304,7 +304,8 @@ fn check_idempotent(b: &Building, exp: &Expected, first: &Components, second: &C
         let zero = vec![0.0; n];
         let (v1, v2) = (a1.get(k).unwrap_or(&zero), a2.get(k).unwrap_or(&zero));
         for t in 0..n {
-            let tol = 8.0 * EPS * scale.get(&k.0).map(|s| s[t]).unwrap_or(0.0);
+            // (8 + 2n): at steps without output the split comes from annual sums over all n steps
+            let tol = (8.0 + 2.0 * n as f64) * EPS * scale.get(&k.0).map(|s| s[t]).unwrap_or(0.0);
             if (v1[t] - v2[t]).abs() > tol {
                 return Some(Violation::new(
                     "not_idempotent",
@@ -332,7 +333,7 @@ impl Property for C05 {
     fn runs(&self, tier: Tier) -> u64 {
         match tier {
             Tier::Quick => 150_000,
-            Tier::Thorough => 10_000_000,
+            Tier::Thorough => 1_500_000,
         }
     }
 
